@@ -789,10 +789,10 @@ class spawn(SpawnBase):
         self.write_to_stdout(self.buffer)
         self.stdout.flush()
         self._buffer = self.buffer_type()
-        mode = tty.tcgetattr(self.STDIN_FILENO)
-        tty.setraw(self.STDIN_FILENO)
         if escape_character is not None and PY3:
             escape_character = escape_character.encode('latin-1')
+        mode = tty.tcgetattr(self.STDIN_FILENO)
+        tty.setraw(self.STDIN_FILENO)
         try:
             self.__interact_copy(escape_character, input_filter, output_filter)
         finally:
